@@ -875,6 +875,9 @@ func buildObjectFieldCache[T any](properties map[string]*PropertySchema) map[str
 	if reflectType.Kind() == reflect.Pointer {
 		reflectType = reflectType.Elem()
 	}
+	// Two properties that resolve to the same field (one by its json tag, one by the field's name) would overwrite each
+	// other in the order in which the map of supplied values happens to be walked.
+	propertyOfField := make(map[string]string, len(properties))
 	for propertyID := range properties {
 		field, ok := reflectType.FieldByNameFunc(func(s string) bool {
 			fieldType, _ := reflectType.FieldByName(s)
@@ -901,6 +904,20 @@ func buildObjectFieldCache[T any](properties map[string]*PropertySchema) map[str
 				})
 			}
 		}
+		fieldPath := fmt.Sprint(field.Index)
+		if other, taken := propertyOfField[fieldPath]; taken {
+			first, second := other, propertyID
+			if second < first {
+				first, second = second, first
+			}
+			panic(BadArgumentError{
+				Message: fmt.Sprintf(
+					"Properties '%s' and '%s' are both mapped to the field '%s' of '%s'",
+					first, second, field.Name, reflectType.Name(),
+				),
+			})
+		}
+		propertyOfField[fieldPath] = propertyID
 		fieldCache[propertyID] = field
 	}
 	return fieldCache
